@@ -295,6 +295,7 @@ PROPS = {
         "sources": KIT + ["mon_C12.c"],
         "phases": [{"name": "main", "config": "asan"},
                    {"name": "ndebug", "config": "asan-ndebug"},
+                   {"name": "fuzz", "config": "fuzz"},
                    {"name": "memcheck", "config": "memcheck", "tiers": ["thorough"], "workers": 16,
                     "wrap": ["valgrind", "-q", "--error-exitcode=97", "--track-origins=no", "--malloc-fill=0xAB"]}],
         "level": "exploration",
@@ -364,8 +365,8 @@ PROPS = {
                       "random, around pentagons, on the antimeridian, touching or separate) are outlined; the result must have one polygon per edge-connected component (union-find on geometric adjacency), the number of loops the "
                       "Euler characteristic of the set demands, exactly as many vertices as the outline has boundary points, first loop counter-clockwise and the others clockwise, >=3 vertices per loop, every vertex a boundary vertex of "
                       "an input cell (1e-12 rad), enclosed area = sum of cell areas (1e-7), and an empty allocator ledger after destroyLinkedMultiPolygon / after an error. Sets containing a pole cell are skipped as the statement says.",
-        "level_note": "Trusted base: geometric adjacency, shared-stretch matching (vf_kit.c), canonical vertex indexes (validated by C11) for the Euler count. Failures caused by the known vertex-hash defect F2 are matched by exact key in the "
-                      "exhaustive corpus and by a mechanism signature elsewhere.",
+        "level_note": "Trusted base: geometric adjacency, shared-stretch matching (vf_kit.c), canonical vertex indexes (validated by C11) for the Euler count. The vertex-hash defect F2 is repaired (the exhaustive corpus has no failing set any more); failures on sets with a component wider than 180 degrees of "
+                      "longitude (open finding F10, witness run on every check) are matched by a signature computed on the failing set.",
         "technique": "runtime monitoring: topological reference (components, Euler characteristic, outline size), orientation/area monitors and allocator ledger, under ASan/UBSan",
         "evaluations": ["sets", "memory_only.sets"],
         "rule": "a case is one set of distinct same-resolution cells. Non-trivial = more than one cell; distinct by hash of the sorted set.",
